@@ -34,6 +34,33 @@ func c08clip[S constraints.Float, D constraints.Integer](conv func(*signal.Buffe
 	vf.Assert("tiny-negative", vf.Implies(f < 0, vf.Implies(f > -tiny, a == 0 || a == -1)))
 }
 
+// c08clipAt (native floating point): clipping holds at every position of a multi-channel buffer whatever the
+// other samples are in range (here: fixed values inside (-1,1), so that no other sample clips).
+func c08clipAt[S constraints.Float, D constraints.Integer](conv func(*signal.Buffer[S], *signal.Buffer[D]) int) {
+	C := vf.Pick("C", 1, vf.Param("MaxC", 2))
+	K := vf.Pick("K", 1, vf.Param("MaxK", 2))
+	src := signal.Alloc[S](signal.Allocator{Channels: C, Length: K, Capacity: K})
+	dst := signal.Alloc[D](signal.Allocator{Channels: C, Length: K, Capacity: K})
+	p := vf.Pick("p", 0, C*K-1)
+	f := vf.Any[S]("f")
+	vf.Assume(f == f)
+	for i := 0; i < C*K; i++ {
+		if i == p {
+			src.SetSample(i, f)
+		} else if i%2 == 0 {
+			src.SetSample(i, 0.25) // the other samples are ordinary in-range values
+		} else {
+			src.SetSample(i, -0.5)
+		}
+	}
+	conv(src, dst)
+	a := amp(dst.Sample(p))
+	vf.Cover("position")
+	vf.Assert("at-or-above-one-is-highest-code", vf.Implies(f >= 1, a == maxAmp[D]()))
+	vf.Assert("at-or-below-minus-one-is-lowest-code", vf.Implies(f <= -1, a == minAmp[D]()))
+	vf.Assert("zero-is-zero-code", vf.Implies(f == 0, a == 0))
+}
+
 // c08lin (exact integer encoding, per binade): accuracy to one step and order inside the binade.
 func c08lin[S constraints.Float, D constraints.Integer](conv func(*signal.Buffer[S], *signal.Buffer[D]) int) {
 	depth := int(widthOf[D]())
@@ -93,4 +120,11 @@ func C08_Edges_FloatAsSigned[S constraints.Float, D constraints.Signed]() {
 }
 func C08_Edges_FloatAsUnsigned[S constraints.Float, D constraints.Unsigned]() {
 	c08edges[S, D](signal.FloatAsUnsigned[S, D])
+}
+
+func C08_ClipAt_FloatAsSigned[S constraints.Float, D constraints.Signed]() {
+	c08clipAt[S, D](signal.FloatAsSigned[S, D])
+}
+func C08_ClipAt_FloatAsUnsigned[S constraints.Float, D constraints.Unsigned]() {
+	c08clipAt[S, D](signal.FloatAsUnsigned[S, D])
 }
